@@ -216,7 +216,20 @@ func (w *World) oracleC01(pre *Snapshot, op Op, post *Snapshot, decision bool, b
 		if pn := pre.Nodes[id]; pn != nil {
 			for k, v := range n.Available {
 				if v < 0 && pn.Available[k] >= 0 {
-					if !forcedNodeOps[op.Kind] {
+					forced := forcedNodeOps[op.Kind]
+					if op.Kind == OpConfirm && op.Term == "PLACEHOLDER_REPLACED" {
+						// the replacement is larger than the placeholder it takes the place of: only possible when the RM resized
+						// the real ask while the swap was in flight, the node takes the difference when the swap completes
+						if pa := pre.Apps[op.App]; pa != nil {
+							if ph := pa.Allocs[op.Key]; ph != nil && ph.ReleaseKey != "" {
+								if real := pa.Asks[ph.ReleaseKey]; real != nil && !real.Res.FitsIn(ph.Res) {
+									forced = true
+									w.Tag("c01-resized-replacement-larger-than-placeholder")
+								}
+							}
+						}
+					}
+					if !forced {
 						w.vio("C01", "available %s of node %s turned negative (%d) in a step that is not an RM forced change: %s", k, id, v, op)
 					} else {
 						w.Tag("forced-negative")
